@@ -151,7 +151,18 @@ class Evaluator(CallMixin, StmtMixin):
         return self.as_sstr(v) is not None
 
     def py_str(self, v: Any, node: Optional[ast.AST] = None) -> Any:
-        """str(v)."""
+        """str(v) as an abstract string."""
+        r = self._py_str(v, node)
+        if isinstance(r, str):
+            return lit(r)
+        if isinstance(r, SStr):
+            return r
+        s = self.as_sstr(r)
+        if s is not None:
+            return s
+        return SStr([Frag("OP", ("str-of", short(r)), {"value": r}, ())])
+
+    def _py_str(self, v: Any, node: Optional[ast.AST] = None) -> Any:
         s = self.as_sstr(v)
         if s is not None:
             return s
@@ -362,6 +373,24 @@ class Evaluator(CallMixin, StmtMixin):
                             return ks
         return None
 
+    def elem_kinds_from_annotation(self, ci: ClassInfo, attr: str) -> Optional[FrozenSet[str]]:
+        """`x: list[T]` / `Optional[list[T]]` -> kinds of T."""
+        for c in self.prog.mro(ci):
+            if isinstance(c, ClassInfo) and attr in c.annotations:
+                ann = c.annotations[attr]
+                if isinstance(ann, ast.Constant) and isinstance(ann.value, str):
+                    try:
+                        ann = ast.parse(ann.value, mode="eval").body
+                    except SyntaxError:
+                        return None
+                if isinstance(ann, ast.Subscript) and ast.unparse(ann.value).split(".")[-1] == "Optional":
+                    ann = ann.slice
+                if isinstance(ann, ast.Subscript) and ast.unparse(ann.value).split(".")[-1] in ("list", "List") \
+                        and not isinstance(ann.slice, ast.Tuple):
+                    return self.kinds_from_annotation(ann.slice, c.module)
+                return None
+        return None
+
     def kinds_from_annotation(self, ann: ast.expr, mod: Module) -> Optional[FrozenSet[str]]:
         if isinstance(ann, ast.Constant) and isinstance(ann.value, str):
             try:
@@ -409,6 +438,8 @@ class Evaluator(CallMixin, StmtMixin):
                 k = self.U.kind_of_class(ci)
                 if k is not None:
                     return frozenset({k})
+                if self.prog.is_subclass(ci, "TypedDict"):
+                    return frozenset({"DICT"})
             return None
         return None
 
@@ -432,6 +463,15 @@ class Evaluator(CallMixin, StmtMixin):
             return self.obj_attr(base, attr, node)
         if isinstance(base, (SStr, str, SList, SDict, list, tuple, dict, set, frozenset, SInt, int, float)):
             return SBound(base, attr)
+        if isinstance(base, SBound) and isinstance(base.recv, (SObj, SOpaque, SNew)):
+            # `x.a.b` where `x.a` could not be resolved to a method: treat `x.a` as an unknown data attribute
+            memo = self.run.elem_memo
+            mk = ("unkattr", getattr(base.recv, "uid", 0), base.name)
+            if mk not in memo:
+                o = SObj(f"{_nm(base.recv)}.{base.name}", ALL_KINDS, origin=_origin(base.recv))
+                o.meta["attr_of"] = (base.recv, base.name)
+                memo[mk] = o
+            return self.get_attr(memo[mk], attr, node)
         if isinstance(base, SFunc):
             if attr == "__name__":
                 return base.qual.split(".")[-1]
@@ -445,6 +485,11 @@ class Evaluator(CallMixin, StmtMixin):
     def obj_attr(self, o: Any, attr: str, node: Optional[ast.AST] = None) -> Any:
         if attr in o.attrs:
             return o.attrs[attr]
+        if isinstance(o, (SObj, SNew)) and not attr.startswith("__"):
+            from .eval_call import _MISSING
+            val = self.copied_attr(o, attr, node)
+            if val is not _MISSING:
+                return val
         if attr == "__class__":
             if isinstance(o, SNew) and isinstance(o.cls, ClassInfo):
                 return SClass(o.cls)
@@ -454,7 +499,11 @@ class Evaluator(CallMixin, StmtMixin):
                     return SClass(ci)
             raise self.unmodelled("__class__ of object with undetermined class", node)
         if attr == "__dict__":
-            return SBound(o, "__dict__")
+            d = SDict(name=f"{_nm(o)}.__dict__", concrete=False)
+            d.origin = _origin(o) if not isinstance(o, SNew) else "new"
+            d.__dict__["fields_of"] = o
+            o.attrs["__dict__"] = d
+            return d
         # class of the object
         cis: List[Optional[ClassInfo]] = []
         if isinstance(o, SNew):
@@ -505,7 +554,15 @@ class Evaluator(CallMixin, StmtMixin):
                 if ks <= frozenset({"TRUE", "FALSE"}):
                     v = SBool(("attr", o.uid, attr))
                 else:
-                    v = SObj(f"{_nm(o)}.{attr}", ks, origin=getattr(o, "origin", "input"))
+                    org = getattr(o, "origin", "input")
+                    if isinstance(o, SObj) and o.origin == "new" and o.meta.get("fresh_fields") is False:
+                        org = "opaque"
+                    v = SObj(f"{_nm(o)}.{attr}", ks, origin=org)
+                    if isinstance(o, SObj) and o.meta.get("elem_origin") and attr in ("children", "data"):
+                        v.meta["elem_origin"] = o.meta["elem_origin"]
+                    ek = self.elem_kinds_from_annotation(ci0, attr)
+                    if ek is not None:
+                        v.meta["elem_kinds"] = ek
                     v.meta["attr_of"] = (o, attr)
                 o.attrs[attr] = v
                 return v
@@ -598,6 +655,13 @@ class Evaluator(CallMixin, StmtMixin):
                 return base[idx]
             except Exception:
                 self.raise_exc("IndexError" if not isinstance(base, dict) else "KeyError", node)
+        if isinstance(base, (dict, list, tuple)) and isinstance(idx, Sym):
+            vals = list(base.values()) if isinstance(base, dict) else list(base)
+            ks = {kinds_of_pyvalue(v) for v in vals if not isinstance(v, Sym)} or ALL_KINDS
+            mk = ("constitem", id(base), _K(idx))
+            if mk not in self.run.elem_memo:
+                self.run.elem_memo[mk] = SObj(f"const[{short(idx)}]", ks, origin="new")
+            return self.run.elem_memo[mk]
         if isinstance(base, SDict):
             key = idx if not isinstance(idx, Sym) else _K(idx)
             if key in base.items:
@@ -661,7 +725,7 @@ class Evaluator(CallMixin, StmtMixin):
                 return self.view_elem(coll, vis, 0, node)
         mk = ("elem", _uid(coll), tuple(sorted(kinds)), _K(idx) if isinstance(idx, Sym) else idx)
         if mk not in run.elem_memo:
-            o = SObj(f"{_nm(coll)}[{short(idx)}]", kinds, origin=_origin(coll))
+            o = SObj(f"{_nm(coll)}[{short(idx)}]", kinds, origin=_elem_origin(coll))
             o.elem_of = (coll, kinds, idx)
             run.elem_memo[mk] = o
         return run.elem_memo[mk]
@@ -738,6 +802,9 @@ class Evaluator(CallMixin, StmtMixin):
         return self.run.decide(("len-cmp", _uid(coll), tuple(sorted(kinds)), op, c))
 
     def obj_item(self, o: Any, idx: Any, node: ast.AST) -> Any:
+        sk = ("stored", getattr(o, "uid", None), _K(idx) if isinstance(idx, Sym) else idx)
+        if sk in self.run.elem_memo:
+            return self.run.elem_memo[sk]
         kinds = getattr(o, "kinds", None)
         if isinstance(o, SNew):
             kinds = frozenset({self.U.kind_of_class(o.cls) or "OTHER"}) if isinstance(o.cls, ClassInfo) else frozenset({"OTHER"})
@@ -757,6 +824,12 @@ class Evaluator(CallMixin, StmtMixin):
                 vk = o.meta.get("value_kinds") if isinstance(o, SObj) else None
                 if vk is None and kinds <= frozenset({"TAGATTRDICT"}):
                     vk = {"STR", "HTMLSTR"}
+                tci = o.meta.get("typed_dict") if isinstance(o, SObj) else None
+                if vk is None and tci is not None and isinstance(idx, str):
+                    for c in self.prog.mro(tci):
+                        if isinstance(c, ClassInfo) and idx in c.annotations:
+                            vk = self.kinds_from_annotation(c.annotations[idx], c.module)
+                            break
                 v = SObj(f"{_nm(o)}[{short(idx)}]", vk or ALL_KINDS, origin=_origin(o))
                 v.meta["item_of"] = (o, idx)
                 self.run.elem_memo[mk] = v
@@ -766,9 +839,13 @@ class Evaluator(CallMixin, StmtMixin):
             if mk not in self.run.elem_memo:
                 self.run.elem_memo[mk] = SOpaque(("item", o.descr, short(idx)))
             return self.run.elem_memo[mk]
-        if isinstance(o, SObj) and len(o.kinds) > 1:
-            self.split_kinds(o, node)
-            return self.obj_item(o, idx, node)
+        if isinstance(o, SObj):
+            mk = ("anyitem", o.uid, _K(idx) if isinstance(idx, Sym) else idx)
+            if mk not in self.run.elem_memo:
+                v = SObj(f"{_nm(o)}[{short(idx)}]", o.meta.get("value_kinds") or ALL_KINDS, origin=_elem_origin(o))
+                v.meta["item_of"] = (o, idx)
+                self.run.elem_memo[mk] = v
+            return self.run.elem_memo[mk]
         raise self.unmodelled(f"subscript of {o!r}", node)
 
     # ---- comparison ----------------------------------------------------------------
@@ -836,7 +913,7 @@ class Evaluator(CallMixin, StmtMixin):
                     return False
                 if isinstance(a, SOpaque):
                     return self.run.decide(("is", a.uid, kind))
-                raise self.unmodelled(f"identity test on {a!r}", node)
+                return self.run.decide(("is", short(a), kind))
         if isinstance(l, (SObj, SNew, SOpaque, SList, SDict)) and isinstance(r, (SObj, SNew, SOpaque, SList, SDict)):
             if l is r:
                 return True
@@ -845,6 +922,22 @@ class Evaluator(CallMixin, StmtMixin):
             return self.run.decide(("same", min(l.uid, r.uid), max(l.uid, r.uid)))
         if isinstance(l, TypeRef) and isinstance(r, TypeRef):
             return repr(l) == repr(r)
+        for a, b in ((l, r), (r, l)):
+            if isinstance(a, SOpaque) and "type_of" in a.__dict__ and isinstance(b, (SClass, TypeRef)):
+                x = a.__dict__["type_of"]
+                cname = b.ci.name if isinstance(b, SClass) else b.name
+                if isinstance(x, SNew):
+                    return x.cls_name == cname
+                if isinstance(x, SObj):
+                    exact = {k for k in x.kinds if KINDS[k].repo == cname or (KINDS[k].repo is None and getattr(KINDS[k].standin, "__name__", "") == cname
+                                                                             and not KINDS[k].methods and k != "OTHER")}
+                    if not exact:
+                        return False
+                    if self.run.path.choose(("type-is", x.uid, cname), 2, (f"type is {cname}", f"type is not {cname}")) == 0:
+                        x.kinds = frozenset(exact)
+                        return True
+                    return False      # (a subclass instance keeps the same kind)
+                return self.run.decide(("type-is", short(x), cname))
         raise self.unmodelled("identity test", node)
 
     def equal(self, l: Any, r: Any, node: ast.AST) -> Any:
@@ -1310,7 +1403,7 @@ class Evaluator(CallMixin, StmtMixin):
                 return v
         coll, kinds = self.as_collection(it, node)
         if coll is not None:
-            o = SObj(f"elem{n}", kinds, origin=_origin(coll))
+            o = SObj(f"elem{n}", kinds, origin=_elem_origin(coll))
             o.elem_of = (coll, kinds, None)
             return o
         if isinstance(it, SList) and it.mode == "map":
@@ -1394,6 +1487,18 @@ def _nm(o: Any) -> str:
 
 
 def _origin(o: Any) -> str:
+    return getattr(o, "origin", "new")
+
+
+def _elem_origin(o: Any) -> str:
+    """Ownership of the *elements* of a collection (a shallow copy is a new container of the old elements)."""
+    if isinstance(o, SObj):
+        lo = o.meta.get("list_of")
+        if lo is not None:
+            return _elem_origin(lo)
+        return o.meta.get("elem_origin") or o.origin
+    if isinstance(o, SNew):
+        return o.__dict__.get("meta", {}).get("elem_origin") or "new"
     return getattr(o, "origin", "new")
 
 
